@@ -618,10 +618,12 @@ func C06(c *vk.Ctx) {
 		}
 		aligns := []string{"entry", "exts", "sig", "alg"}
 		ks := []int{1}
-		deltas := []int{-1, 0, 1}
+		// the element starts at 4096k+delta: its tag, its length-of-length octet or its length octets (two of them for every
+		// element above 255 bytes) straddle the window boundary for delta = -1, -2, -3
+		deltas := []int{-3, -2, -1, 0, 1}
 		if c.Thorough() {
 			ks = []int{1, 2, 3}
-			deltas = []int{-2, -1, 0, 1, 2}
+			deltas = []int{-4, -3, -2, -1, 0, 1, 2}
 		}
 		for ai, al := range aligns {
 			if !c.Thorough() && (ai+i)%4 != 0 {
